@@ -61,7 +61,39 @@ def tok(ins):
         return "e%d" % ins[1]
     if k == "pparam": return "P%d" % ins[1]
     if k == "params": return "(%d)" % ins[1]
+    if k == "badstart": return ("T%d" if BADSTART[ins[1]][1] else "t%d") % ins[2]
+    if k == "waitsum": return "T%d m%d" % (ins[1], ins[3])
     raise ValueError(ins)
+
+
+# A thread start that names a label which does not exist (`l` >= number of labels of the program; checked
+# in `script_line`).  Whatever the receiver and the file, the statement is a script error that the VM
+# reports and skips: for the machine it is `thread l` / `waitthread l` with `l` out of range (a no-op that
+# leaves no thread and no script instance).  (text, is-waitthread); `%(o)d` object, `%(l)d` label.
+# aux.scr is a second file served through the harness' `source` command; nofile.scr does not exist.
+AUX_NAME = "aux.scr"
+AUX_SRC = 'a0:\nprintln "aux"\nend\n'
+BADSTART = [
+    ("thread t%(l)d local", False),
+    ("waitthread t%(l)d local", True),
+    ("$o%(o)d thread t%(l)d local", False),
+    ("$o%(o)d waitthread t%(l)d local", True),
+    ("thread aux.scr::t%(l)d local", False),
+    ("waitthread aux.scr::t%(l)d local", True),
+    ("exec aux.scr::t%(l)d", False),
+    ("local.r = waitthread t%(l)d local", True),
+    ("local.r = $o%(o)d thread t%(l)d local", False),
+    ("thread nofile.scr::t%(l)d local", False),
+    ("$o%(o)d exec aux.scr::t%(l)d", False),
+    ("$o%(o)d waitexec aux.scr::t%(l)d", True),
+    ("local.r = waitthread aux.scr::t%(l)d local", True),
+    ("level thread t%(l)d local", False),
+]
+
+
+def source_line(name=AUX_NAME, src=AUX_SRC):
+    """stores a file the engine may open by name later (IFileManagement); no effect on the machine"""
+    return "source %s %s" % (name, src.encode().hex())
 
 
 def secs(ms):
@@ -108,6 +140,21 @@ def stmt(ins):
         if isinstance(ins[1], tuple): return "end local.p%d" % ins[1][1]
         return "end %d" % ins[1]
     if k == "pparam": return 'println "p" local.p%d' % ins[1]
+    if k == "badstart": return BADSTART[ins[1]][0] % {"l": ins[2], "o": ins[3] if len(ins) > 3 else 1}
+    if k == "waitsum":
+        # ("waitsum", label, form, expected): `waitthread` in expression position with the callee's result
+        # made visible: the caller is suspended with operands on its VM stack, and what it prints once the
+        # callee has ended is the marker `m<expected>` iff the result arrived in the right slot.
+        # expected = base + (the literal the callee ends with); the abstract form is `T<label> m<expected>`.
+        l, form, exp, v = ins[1], ins[2], ins[3], ins[4]
+        base = exp - v
+        if form == 0: return 'println ("m" + (%d + (waitthread t%d local)))' % (base, l)
+        if form == 1: return 'local.r = waitthread t%d local\nprintln ("m" + (local.r + %d))' % (l, base)
+        if form == 2: return 'local.q[1] = %d\nlocal.q[2] = (waitthread t%d local)\nprintln ("m" + (local.q[1] + local.q[2]))' % (base, l)
+        if form == 3: return 'level.r%d = waitthread t%d local\nprintln ("m" + (level.r%d + %d))' % (l, l, l, base)
+        if form == 4: return 'println ("m" + ((waitthread t%d local) + %d))' % (l, base)
+        if form == 5: return 'println ("m" + (%d + (%d + (%d + (waitthread t%d local)))))' % (base - 2, 1, 1, l)
+        raise ValueError(ins)
     raise ValueError(ins)
 
 
@@ -132,6 +179,9 @@ def script_line(prog, name="m"):
         if body and body[0][0] == "params":
             return ""
         return "(1) " if any(x[0] in PARENT_OPS for x in body) else ""
+    for body in prog:
+        for x in body:
+            assert x[0] != "badstart" or x[2] >= len(prog), "badstart must name a missing label"
     abstract = " / ".join(head(body) + " ".join(tok(x) for x in body) for body in prog)
     return "script %s %s ## %s" % (name, render(prog).encode().hex(), abstract)
 
@@ -483,3 +533,393 @@ def gen_vars_case(rng):
         lines.append("step %d" % rng.choice([50, 125, 125, 250, 300]))
     lines += ["step 1000", "step 1000"]
     return lines, src
+
+
+# ---------------------------------------------------------------------------------------------
+# thread starts at labels that do not exist (C13 "idle means empty": a failed start leaves nothing)
+
+HOST_BADCALLS = ["call m t%d", "callv m t%d", "call @m t%d", "callv @m t%d", "call m t%d i5 s6162"]
+
+
+def inject_badstarts(rng, prog, count=None):
+    """a copy of `prog` with thread starts at missing labels (every receiver / file form of BADSTART)
+    inserted at random positions of random bodies"""
+    prog = [list(b) for b in prog]
+    for _ in range(count or rng.randint(1, 4)):
+        body = rng.choice(prog)
+        lo = 1 if body and body[0][0] == "params" else 0
+        hi = len(body) - 1 if body and body[-1][0] == "end" else len(body)
+        pos = rng.randint(lo, max(lo, hi))
+        body.insert(pos, ("badstart", rng.randrange(len(BADSTART)), len(prog) + rng.randint(0, 3), rng.randint(1, 3)))
+    return prog
+
+
+def inject_host_badcalls(rng, lines, nlabels, count=None):
+    """host calls of labels that do not exist, between the commands that follow the first call"""
+    lines = list(lines)
+    first = next(i for i, l in enumerate(lines) if l.startswith("call"))
+    for _ in range(count if count is not None else rng.randint(0, 3)):
+        pos = rng.randint(first, len(lines) - 1)
+        lines.insert(pos, rng.choice(HOST_BADCALLS) % (nlabels + rng.randint(0, 3)))
+    return lines
+
+
+def gen_badlabel_case(rng):
+    r = rng.random()
+    if r < 0.5:
+        prog, ncalls = gen_sync_prog(rng), None
+    elif r < 0.8:
+        prog, ncalls = gen_timer_prog(rng), None
+    else:
+        prog, ncalls = gen_hub_prog(rng), 1
+    prog = inject_badstarts(rng, prog)
+    lines = gen_case(rng, prog, ncalls=ncalls)
+    lines = inject_host_badcalls(rng, lines, len(prog))
+    return [lines[0], source_line()] + lines[1:]
+
+
+def badlabel_family():
+    """deterministic: every BADSTART form before and after a timed wait, in the first thread, in a thread of
+    the same instance and in a `waitthread` callee (own instance), with every host form of a bad call"""
+    cases = []
+    for v in range(len(BADSTART)):
+        bad = ("badstart", v, 7, 1)
+        for shape in range(3):
+            if shape == 0:
+                prog = [[("spawn", 1), ("mark", 1), bad, ("mark", 2), ("wait", 125), ("mark", 3), bad, ("mark", 4)]]
+            elif shape == 1:
+                prog = [[("spawn", 1), ("mark", 1), ("thread", 1), ("mark", 2)],
+                        [("mark", 10), bad, ("mark", 11), ("wait", 125), bad, ("mark", 12), ("end", 5)]]
+            else:
+                prog = [[("spawn", 1), ("mark", 1), ("waitthread", 1), ("mark", 2), bad, ("mark", 3)],
+                        [("mark", 10), bad, ("mark", 11), ("wait", 125), bad, ("mark", 12), ("end", 5)]]
+            host = HOST_BADCALLS[(v + shape) % len(HOST_BADCALLS)] % (len(prog) + shape)
+            cases.append(["reset", source_line(), script_line(prog), "call m t0", host, "step 0", "step 125", host,
+                          "step 1000", "step 1000", "thread-result"])
+    # the host forms alone: nothing was ever started
+    for h in HOST_BADCALLS:
+        prog = [[("mark", 1)]]
+        cases.append(["reset", script_line(prog), h % 1, "step 0", h % 4, "step 1000", "thread-result"])
+    return cases
+
+
+# ---------------------------------------------------------------------------------------------
+# C07: one object carrying `endon` registrations under several event names at the same time
+
+def _orders(names):
+    """every non-empty sequence of distinct names (every subset in every order)"""
+    import itertools
+    res = []
+    for r in range(1, len(names) + 1):
+        res += [list(p) for p in itertools.permutations(names, r)]
+    return res
+
+
+def endon_family(quick=True):
+    """k threads each `$o1 endon n_i` (distinct names, same object), then parked (on a gate object, on a
+    timer, paused); the names are notified in every order — inside one command by the first thread, or by
+    separate host calls between frames — and the gate is opened at the end: the markers show exactly the
+    threads whose own event was never notified.  Plus: a thread named under two names, two threads under
+    one name beside a third name, the same names on a second object (must be unaffected)."""
+    cases = []
+    GATE = 9
+    parks = [[("waittill", 2, [GATE])], [("wait", 250)], [("pause",)]]
+    for k in ((2, 3) if quick else (2, 3, 4)):
+        names = list(range(1, k + 1))
+        for shape in range(4):
+            # victims: label index 1..; (list of (obj, name) endon registrations)
+            if shape == 0:
+                regs = [[(1, n)] for n in names]
+            elif shape == 1:
+                regs = [[(1, 1), (1, 2)]] + [[(1, n)] for n in names[2:]] + [[(1, names[-1])]]
+            elif shape == 2:
+                regs = [[(1, n)] for n in names] + [[(1, 1)]]
+            else:
+                regs = [[(1, n)] for n in names] + [[(3, n)] for n in names]      # object 3: same names, never notified
+            for pi, park in enumerate(parks):
+                if shape and pi and quick:
+                    continue
+                for order in _orders(names):
+                    if shape and quick and len(order) < 2:
+                        continue
+                    nv = len(regs)
+                    victims = [[("endon", o, n) for (o, n) in r] + [("mark", 10 + i)] + park + [("mark", 20 + i)]
+                               for i, r in enumerate(regs)]
+                    start = [("spawn", 1), ("spawn", 2), ("spawn", 3), ("mark", 1)] + [("thread", 1 + i) for i in range(nv)] + [("mark", 2)]
+                    # (a) every notify inside the first command
+                    body = list(start)
+                    for j, n in enumerate(order):
+                        body += [("notify", 1, n), ("mark", 30 + j)]
+                    body += [("notify", 2, GATE), ("mark", 3)]
+                    cases.append(["reset", script_line([body] + victims), "call m t0", "step 125", "step 125", "step 1000", "thread-result"])
+                    # (b) notifier labels called by the host between frames
+                    notifiers = [[("notify", 1, n), ("mark", 40 + n)] for n in names]
+                    gate = [[("notify", 2, GATE), ("mark", 4)]]
+                    prog = [start] + victims + notifiers + gate
+                    lines = ["reset", script_line(prog), "call m t0"]
+                    for j, n in enumerate(order):
+                        lines += ["call m t%d" % (1 + nv + n - 1), "step %d" % (0 if j % 2 == 0 else 50)]
+                    lines += ["call m t%d" % (1 + nv + k), "step 125", "step 1000", "thread-result"]
+                    cases.append(lines)
+    return cases
+
+
+def gen_endon_prog(rng):
+    """C07 (random): 2-5 threads with 1-3 `endon` registrations each over few objects and up to 4 names
+    (so that one object usually carries several names at once), parked in different ways; the first thread
+    and notifier labels notify / delete in random order"""
+    nobj = rng.choice([1, 1, 2])
+    nnames = rng.randint(2, 4)
+    nv = rng.randint(2, 5)
+    mk = Marks()
+    GATE = 9
+    victims = []
+    for i in range(nv):
+        body = [mk.next()]
+        for _ in range(rng.choice([1, 1, 2, 3])):
+            body.append(("endon", rng.randint(1, nobj), rng.randint(1, nnames)))
+        for _ in range(rng.choice([1, 1, 2])):
+            r = rng.random()
+            if r < 0.35:
+                body.append(("waittill", 3, [GATE]))
+            elif r < 0.6:
+                body.append(("wait", rng.choice([125, 250, 500])))
+            elif r < 0.8:
+                body.append(("waittill", rng.randint(1, nobj), [rng.randint(1, nnames)]))
+            elif r < 0.9:
+                body.append(("pause",))
+            else:
+                body.append(("endon", rng.randint(1, nobj), rng.randint(1, nnames)))
+            body.append(mk.next())
+        victims.append(body)
+    nnot = rng.randint(1, 3)
+    notifiers = []
+    for _ in range(nnot):
+        body = [mk.next()]
+        for _ in range(rng.randint(1, 3)):
+            r = rng.random()
+            if r < 0.8:
+                body.append(("notify", rng.randint(1, nobj), rng.randint(1, nnames)))
+            elif r < 0.9:
+                body.append(("notify", 3, GATE))
+            else:
+                body.append(("delete", rng.randint(1, nobj)))
+            body.append(mk.next())
+        notifiers.append(body)
+    first = [("spawn", o) for o in range(1, nobj + 1)] + [("spawn", 3), mk.next()]
+    order = list(range(1, nv + 1))
+    rng.shuffle(order)
+    for v in order:
+        first.append(("thread", v))
+    first.append(mk.next())
+    for _ in range(rng.randint(0, 4)):
+        r = rng.random()
+        if r < 0.7:
+            first.append(("notify", rng.randint(1, nobj), rng.randint(1, nnames)))
+        elif r < 0.85:
+            first.append(("wait", rng.choice([0, 125, 250])))
+        else:
+            first.append(("thread", nv + rng.randint(1, nnot)))
+        first.append(mk.next())
+    if rng.random() < 0.5:
+        first += [("notify", 3, GATE), mk.next()]
+    return [first] + victims + notifiers, nv
+
+
+def gen_endon_case(rng):
+    prog, nv = gen_endon_prog(rng)
+    lines = ["reset", script_line(prog), "call m t0"]
+    for _ in range(rng.randint(2, 8)):
+        r = rng.random()
+        if r < 0.5:
+            lines.append("call m t%d" % rng.randint(nv + 1, len(prog) - 1))
+        elif r < 0.55:
+            lines.append("call m t%d" % rng.randint(1, nv))
+        lines.append("step %d" % rng.choice(STEPS))
+    lines += ["step 1000", "step 1000", "thread-result"]
+    return lines
+
+
+# ---------------------------------------------------------------------------------------------
+# C09: threads suspended in the MIDDLE OF AN EXPRESSION at the save point (`waitthread` whose result is
+# used: operands on the caller's VM stack while the callee sleeps across the save), results visible
+
+def c09_expr_programs(quick=True):
+    """deterministic programs (machine-comparable) + frame schedules; the callers print `m<base+result>`"""
+    progs = []
+    steps7 = ["step 125"] * 6 + ["step 1000"]
+    for form in range(6):
+        # two calls one after the other, the callees sleep over one / two frame boundaries
+        progs.append(([[("mark", 1), ("wait", 125), ("waitsum", 1, form, 107, 7), ("mark", 2), ("waitsum", 2, form, 504, 4), ("mark", 3)],
+                       [("mark", 10), ("wait", 250), ("mark", 11), ("end", 7)],
+                       [("mark", 20), ("wait", 125), ("mark", 21), ("wait", 125), ("end", 4)]], steps7))
+        # nested: the callee is itself suspended mid-expression on a third thread
+        f2 = (form + 1) % 6
+        progs.append(([[("mark", 1), ("waitsum", 1, form, 307, 7), ("mark", 2)],
+                       [("mark", 10), ("wait", 125), ("waitsum", 2, f2, 242, 42), ("mark", 11), ("wait", 125), ("end", 7)],
+                       [("mark", 20), ("wait", 250), ("mark", 21), ("end", 42)]], ["step 125"] * 5 + ["step 1000"]))
+    for form in ((0, 1, 3) if quick else range(6)):
+        # two callers suspended at the same time beside a ticker; frames of 50 ms so that saves fall everywhere
+        progs.append(([[("mark", 1), ("thread", 1), ("thread", 2), ("thread", 5), ("mark", 2)],
+                       [("mark", 10), ("waitsum", 3, form, 207, 7), ("mark", 11), ("wait", 125), ("mark", 12)],
+                       [("mark", 20), ("wait", 50), ("waitsum", 4, (form + 2) % 6, 904, 4), ("mark", 21)],
+                       [("mark", 30), ("wait", 125), ("mark", 31), ("wait", 125), ("end", 7)],
+                       [("wait", 250), ("mark", 40), ("end", 4)],
+                       [("wait", 125), ("mark", 50), ("wait", 125), ("mark", 51), ("wait", 125), ("mark", 52)]],
+                      ["step 50", "step 75", "step 125", "step 50", "step 75", "step 125", "step 1000"]))
+        # control: the callee ends inside the call (no suspension), and a callee that waits 0
+        progs.append(([[("mark", 1), ("waitsum", 1, form, 107, 7), ("mark", 2), ("wait", 125), ("waitsum", 2, form, 204, 4), ("mark", 3)],
+                       [("mark", 10), ("end", 7)],
+                       [("mark", 20), ("wait", 0), ("mark", 21), ("end", 4)]], ["step 0", "step 125", "step 125", "step 1000"]))
+    return [(p, ["reset", script_line(p), "callv m t0"] + steps) for p, steps in progs]
+
+
+def c09_expr_model_cases(quick=True):
+    """the programs above with `save; load` at EVERY boundary, for the machine-vs-engine comparison"""
+    cases = []
+    for i, (prog, base) in enumerate(c09_expr_programs(quick)):
+        for k in range(3, len(base)):
+            cases.append(("expr%d@%d" % (i, k), base[:k] + ["save", "load"] + base[k:]))
+    return cases
+
+
+def gen_c09_expr_prog(rng):
+    """random: like gen_c09_prog (timers, thread, waitthread, pause, level waittill/notify; no endon: nothing
+    is killed, so every callee's result is the literal it ends with) with `waitthread` mostly in expression
+    position and its result printed"""
+    nl = rng.randint(2, 5)
+    mk = Marks()
+    ends = [rng.choice([4, 7, 42]) for _ in range(nl)]
+    prog = []
+    for i in range(nl):
+        body = [mk.next()]
+        for _ in range(rng.randint(1, 5)):
+            r = rng.random()
+            if r < 0.4:
+                body.append(("wait", rng.choice(DURS + [1000])))
+            elif r < 0.5 and i + 1 < nl:
+                body.append(("thread", rng.randint(i + 1, nl - 1)))
+            elif r < 0.88 and i + 1 < nl:
+                l = rng.randint(i + 1, nl - 1)
+                body.append(("waitsum", l, rng.randrange(6), 100 * rng.randint(1, 9) + ends[l], ends[l]))
+            elif r < 0.9:
+                body.append(("pause",))
+            elif r < 0.95:
+                body.append(("waittill", 50, [rng.randint(1, 2)]))
+            else:
+                body.append(("notify", 50, rng.randint(1, 2)))
+            body.append(mk.next())
+        body.append(("end", ends[i]))
+        prog.append(body)
+    return prog
+
+
+# engine A/B only (free script text): results of suspended calls used as arguments, in string / array /
+# vector expressions, in conditions; level variables printed at the end
+AB_EXPR_SCRIPTS = [
+    # the shape of seeded/C09-ind-6: assignment + arithmetic, level variable
+    """t0:
+level.acc = 0
+thread ticker 0.15
+wait 0.2
+local.r = waitthread slow 7
+println "slow returned " local.r
+println ("sum " + (100 + (waitthread slow 4)))
+level.result = local.r
+println "result " level.result " acc " level.acc
+end
+slow local.x:
+wait 0.25
+level.acc += local.x
+wait 0.1
+end (local.x * 2)
+ticker local.period:
+for (local.i = 1; local.i <= 6; local.i++) {
+  wait local.period
+  println "tick " local.i
+}
+end
+""",
+    # results as arguments of another call, left and right operands both pending in turn
+    """t0:
+local.r = waitthread add (waitthread slow 3) (waitthread slow 5)
+println "r " local.r
+local.s = (waitthread slow 1) + (waitthread slow 2) * (waitthread slow 3)
+println "s " local.s
+level.out = local.r + local.s
+println "level " level.out
+end
+add local.a local.b:
+wait 0.125
+end (local.a + local.b)
+slow local.x:
+wait 0.125
+println "slow " local.x
+wait 0.125
+end (local.x * 2)
+""",
+    # strings, arrays, vectors, a listener reference under the pending slot
+    """t0:
+local.a[1] = "x" + (waitthread wordf "mid") + "y"
+println local.a[1]
+local.a[(waitthread numf 2)] = "two"
+println local.a[2]
+local.v = (1 2 3) + (waitthread vecf)
+println local.v
+local.me = local
+local.same = (local.me == (waitthread selff local))
+println "same " local.same
+local.b[1][(waitthread numf 3)] = (waitthread numf 4)
+println local.b[1][3]
+end
+wordf local.w:
+wait 0.25
+end (local.w + "!")
+numf local.n:
+wait 0.125
+end local.n
+vecf:
+wait 0.125
+end (10 20 30)
+selff local.o:
+wait 0.125
+end local.o
+""",
+    # conditions and loop bounds
+    """t0:
+if ((waitthread numf 2) == 2) {
+  println "yes"
+} else {
+  println "no"
+}
+local.i = 0
+while (local.i < (waitthread numf 2)) {
+  println "loop " local.i
+  local.i++
+}
+local.k = ((waitthread numf 1) && (waitthread numf 5)) + ((waitthread numf 0) || (waitthread numf 6))
+println "k " local.k
+switch (waitthread numf 3) {
+case 3:
+  println "three"
+  break
+default:
+  println "other"
+  break
+}
+end
+numf local.n:
+wait 0.125
+end local.n
+""",
+]
+
+
+def c09_expr_ab_cases(quick=True):
+    """(description, base lines) for the engine-vs-engine run with save;load at every boundary"""
+    res = []
+    for prog, base in c09_expr_programs(quick):
+        res.append((base[1].split("## ", 1)[-1], base))
+    for src in AB_EXPR_SCRIPTS:
+        res.append((src, ["reset", "script m %s" % src.encode().hex(), "callv m t0"] + ["step 50", "step 75"] * 9 + ["step 125"] * 4 + ["step 1000"]))
+    return res
